@@ -140,6 +140,10 @@ func (i *FSMInstance) Do(event fsm.Event, args ...interface{}) (result *fsm.Resp
 
 		dump, dumpErr = i.dump.Marshal()
 		if dumpErr != nil {
+			// never hand out an empty dump as if it described the round
+			if err == nil {
+				err = fmt.Errorf("failed to marshal FSM dump: %w", dumpErr)
+			}
 			return result, []byte{}, err
 		}
 	}
